@@ -40,9 +40,13 @@ LZ(i) ==
       [] mut = "bypos" /\ cfg.named -> (2 * i <= np /\ cfg.mask[2 * i])   \* by the position of the element, labels counted
       [] OTHER -> cfg.mask[cfg.ord[i]]
 
-Static == [funcs |-> << [params |-> [j \in 1..np |-> [name |-> Names[j], lazy |-> cfg.mask[j]]], rest |-> FALSE] >>,
-           sites |-> << [args |-> [i \in 1..np |-> [label |-> IF cfg.named THEN Names[cfg.ord[i]] ELSE "",
-                                                    kind |-> cfg.kind[i], src |-> "s"]]] >>]
+(* the static description of the call, as the harness writes it for a program *)
+MkStatic(mask, named, ord, kind) ==
+    LET n == Len(mask) IN
+    [funcs |-> << [params |-> [j \in 1..n |-> [name |-> Names[j], lazy |-> mask[j]]], rest |-> FALSE] >>,
+     sites |-> << [args |-> [i \in 1..n |-> [label |-> IF named THEN Names[ord[i]] ELSE "",
+                                              kind |-> kind[i], src |-> "s"]]] >>]
+Static == cfg.static
 
 (* the events of an action are queued and handed to the monitor one at a time; mon = [k, why, st] *)
 Emit(evs) == q = <<>> /\ q' = evs /\ UNCHANGED mon
@@ -58,7 +62,8 @@ Init == /\ mut \in Muts
              \E ord \in (IF named THEN Perms(n) ELSE {[i \in 1..n |-> i]}) :
              \E kind \in [1..n -> {"plain", "err", "reenter"}] :
                 /\ \A i \in 1..n : kind[i] = "reenter" => mask[ord[i]]
-                /\ cfg = [mask |-> mask, named |-> named, ord |-> ord, kind |-> kind]
+                /\ cfg = [mask |-> mask, named |-> named, ord |-> ord, kind |-> kind,
+                           static |-> MkStatic(mask, named, ord, kind)]
                 /\ pst = [i \in 1..n |-> "new"]
         /\ ph = "start" /\ k = 1 /\ used = {} /\ nf = 0
         /\ q = <<>> /\ mon = [k |-> "ok", why |-> "", st |-> Init0]
